@@ -1514,6 +1514,15 @@ impl Property for C11 {
     fn id(&self) -> &'static str {
         "C11"
     }
+    fn post(&self, tier: Tier, seed: u64, root: &std::path::Path) -> Result<Value, Failure> {
+        // thorough: coverage-guided search over the same tapes (libFuzzer + ASan on the generic
+        // `prop_tape` target; budget by measured executions per second)
+        if tier == Tier::Thorough {
+            crate::fuzzapi::run_prop_fuzz_campaign("C11", root, seed, 100000, 8, self.tape_len())
+        } else {
+            Ok(Value::Null)
+        }
+    }
     fn tape_len(&self) -> usize {
         768
     }
